@@ -67,6 +67,18 @@ def conforms_py(w: World, v, t) -> bool:
     if k == "opt":
         return v is None or conforms_py(w, v, t[1])
     if k in ("class", "self"):
+        if w.specs[t[1]].kind == "td":
+            # a TypedDict value: a dict holding every required key, declared keys at their types (undeclared keys: finding F4, not judged here)
+            if type(v) is not dict:
+                return False
+            for f in w.specs[t[1]].fields:
+                if f.name not in v:
+                    if f.default is NODEFAULT:
+                        return False
+                    continue
+                if not conforms_py(w, v[f.name], f.type):
+                    return False
+            return True
         if type(v) is not w.pycls[t[1]]:
             return False
         for f in w.specs[t[1]].fields:
@@ -288,7 +300,15 @@ def compositional(conv, w: World, o, t, r, strat, path="$"):
         pairs = [(f"{path}[{kk!r}]", o[kk], t[2], r[sk]) for sk, kk in seen_keys.items()]
     elif k in ("class", "self") and ((strat == "dict" and type(o) is dict) or (strat == "tuple" and type(o) in (list, tuple))):
         spec = w.specs[t[1]]
-        if strat == "dict":
+        if spec.kind == "td":
+            if type(o) is dict and type(r) is dict:
+                for f in spec.fields:
+                    if f.name not in o:
+                        continue
+                    if f.name not in r:
+                        return f"{path}[{f.name!r}]: present in the payload, absent from the result"
+                    pairs.append((f"{path}[{f.name!r}]", o[f.name], f.type, r[f.name]))
+        elif strat == "dict":
             for f in spec.fields:
                 if f.type is None or f.name not in o or not f.init:
                     continue
@@ -567,8 +587,12 @@ def oracle_c01(v, w, cfg, cfg2, t, x, u, sres):
 def oracle_c02(v, w, conv, cfg, forbid, t, o, sres):
     if sres[0] != "ok":
         return
+    if not cfg[0] and w._mentions_td(t):
+        return            # TypedDicts are supported through Converter's generated hooks only (docs/defaulthooks.md); BaseConverter sees a plain dict
     if not conforms_py(w, sres[1], t):
-        if cfg[2] == "tuple" and reaches(w, t, shifts_positions):
+        if w._mentions_td(t) and td_nonmapping(w, t, o):
+            v.finding("F11", "fast TypedDict hook returns a copy of a non-mapping payload", rp(w, cfg, forbid, t, o, sres, "C02"))
+        elif cfg[2] == "tuple" and reaches(w, t, shifts_positions):
             v.finding("F27", "tuple strategy: values shifted onto the wrong attributes past a kw_only / init=False attribute", rp(w, cfg, forbid, t, o, sres, "C02"))
         else:
             v.violation("structure returned a value that does not conform to the requested type", rp(w, cfg, forbid, t, o, sres, "C02"))
@@ -747,6 +771,8 @@ def flags_of(t1_summary):
 
 def check_conv(v: Verdict, prop: str, t1_summary, n_worlds: int):
     profile = dict(P_ALL if prop in ("C02",) else P_SUPPORTED)
+    if prop == "C02":
+        profile["typeddicts"] = 0.15          # TypedDict positions: oracle only
     if prop == "C04":
         profile = dict(P_ALL, ext_types=True, typeddicts=0.15)
     if prop == "C03":
